@@ -840,6 +840,13 @@ func (in *Interp) sprintf(format value, args []value) value {
 				pieces = append(pieces, s)
 			}
 		default:
+			// %d of a symbolic unsigned integer: decimal digits as terms (digit count is a path decision)
+			if t, isTerm := iv.v.(*Term); isTerm && verb == 'd' && spec == "%d" && t.sort.K == sBV && iv.t != nil {
+				if bt, okb := iv.t.Underlying().(*types.Basic); okb && isUnsigned(bt) {
+					pieces = append(pieces, in.symDecimal(t))
+					continue
+				}
+			}
 			// numeric / other verbs: host formatting on concrete operands
 			hv, ok := hostScalar(iv.v)
 			if !ok {
@@ -1214,4 +1221,43 @@ func (in *Interp) utf8Width(b []value, pos int) int {
 		}
 	}
 	return 1
+}
+
+// symDecimal renders an unsigned symbolic integer in decimal. The number of
+// digits is decided by branching; the digits are (x / 10^i) % 10 + '0'.
+func (in *Interp) symDecimal(t *Term) value {
+	w := t.sort.W
+	x := t
+	if w < 64 {
+		x = mkZext(t, 64-w)
+	}
+	nd := 1
+	pow := uint64(10)
+	for nd < 20 {
+		if in.branch(mkBvCmp(opBvUlt, x, mkBV(64, pow))) {
+			break
+		}
+		nd++
+		if nd < 20 {
+			pow *= 10
+		}
+	}
+	digits := make([]value, nd)
+	p := uint64(1)
+	for i := 0; i < nd; i++ {
+		q := x
+		if p > 1 {
+			q = mkBvBin(opBvUDiv, x, mkBV(64, p))
+		}
+		d := mkBvBin(opBvURem, q, mkBV(64, 10))
+		ch := mkBvBin(opBvAdd, mkExtract(d, 7, 0), mkBV(8, '0'))
+		digits[nd-1-i] = in.simp(value(ch))
+		if c, ok := digits[nd-1-i].(*Term); ok && c.isConst() {
+			digits[nd-1-i] = uint8(c.cval)
+		}
+		if i < nd-1 {
+			p *= 10
+		}
+	}
+	return mkString(digits)
 }
